@@ -182,8 +182,7 @@ Qed.
 Lemma kclass_of_zero_l : forall v, kclass_of v = 0 <-> known_free v = true.
 Proof.
   intros v. unfold kclass_of, known_free, s_known.
-  rewrite (kany_or (fun s => s_class1 s || s_class2 s) s_class3), (kany_or s_class1 s_class2).
-  destruct (kany s_class1 v), (kany s_class2 v), (kany s_class3 v); cbn; split; intros H; try reflexivity; try discriminate.
+  destruct (kany s_class3 v); cbn; split; intros H; try reflexivity; try discriminate.
 Qed.
 
 (* ------------------------------------------------------------------ the spec order means what it says *)
@@ -211,29 +210,34 @@ Proof.
   symmetry; try (apply Z.compare_lt_iff; lia); try (apply Z.compare_gt_iff; lia); try (apply Z.compare_eq_iff; lia).
 Qed.
 
-(* ------------------------------------------------------------------ the recorded defects are real in the model *)
-(* class 1: vector [-0.0] sorts below [-1.0] and decodes as [NaN] *)
-Lemma class1_refuted_l :
-  exists a b, kwf a = true /\ kwf b = true /\ orderable a = true /\ orderable b = true
-    /\ kclass_of a = 1 /\ known_free b = true
-    /\ lex_cmp (enc a) (enc b) <> vcmp a b
-    /\ dec 10 (enc a) <> ROk (canon a) (blen (enc a)).
+(* ------------------------------------------------------------------ vector components / JSON numbers:
+   the order proved for them is IEEE-754 totalOrder on the bit patterns (tot32 / tot64).  It
+   refines the numeric order (so -0.0 < +0.0 is the only place where it says more), puts every
+   NaN with the sign bit below every non-NaN and every NaN without it above. *)
+Lemma tot32_refines_l : forall x y, in_u 32 x = true -> in_u 32 y = true -> sm32 x < sm32 y -> tot32 x < tot32 y.
 Proof.
-  exists (KS (SVector [2147483648])), (KS (SVector [3212836864])).
-  repeat split; try (vm_compute; reflexivity); vm_compute; discriminate.
+  intros x y Wx Wy. destruct (split32 x Wx) as [Hx _]. destruct (split32 y Wy) as [Hy _].
+  unfold sm32, tot32, SIGN32 in *. destruct (neg32 x), (neg32 y); lia.
+Qed.
+Lemma tot64_refines_l : forall x y, in_u 64 x = true -> in_u 64 y = true -> sm64 x < sm64 y -> tot64 x < tot64 y.
+Proof.
+  intros x y Wx Wy. destruct (split64 x Wx) as [Hx _]. destruct (split64 y Wy) as [Hy _].
+  unfold sm64, tot64, SIGN64 in *. destruct (neg64 x), (neg64 y); lia.
+Qed.
+Lemma tot32_nan_l : forall x y, in_u 32 x = true -> in_u 32 y = true -> is_nan32 x = true -> is_nan32 y = false ->
+  if neg32 x then tot32 x < tot32 y else tot32 y < tot32 x.
+Proof.
+  intros x y Wx Wy Nx Ny. destruct (split32 x Wx) as [Hx _]. destruct (split32 y Wy) as [Hy _].
+  unfold is_nan32, tot32, SIGN32, INF32 in *. destruct (neg32 x), (neg32 y); lia.
+Qed.
+Lemma tot64_nan_l : forall x y, in_u 64 x = true -> in_u 64 y = true -> is_nan64 x = true -> is_nan64 y = false ->
+  if neg64 x then tot64 x < tot64 y else tot64 y < tot64 x.
+Proof.
+  intros x y Wx Wy Nx Ny. destruct (split64 x Wx) as [Hx _]. destruct (split64 y Wy) as [Hy _].
+  unfold is_nan64, tot64, SIGN64, INF64 in *. destruct (neg64 x), (neg64 y); lia.
 Qed.
 
-(* class 2: JSON number -0.0 sorts below -1.0 and decodes as NaN *)
-Lemma class2_refuted_l :
-  exists a b, kwf a = true /\ kwf b = true /\ orderable a = true /\ orderable b = true
-    /\ kclass_of a = 2 /\ known_free b = true
-    /\ lex_cmp (enc a) (enc b) <> vcmp a b
-    /\ dec 10 (enc a) <> ROk (canon a) (blen (enc a)).
-Proof.
-  exists (KS (SJson (JNum 9223372036854775808))), (KS (SJson (JNum 13830554455654793216))).
-  repeat split; try (vm_compute; reflexivity); vm_compute; discriminate.
-Qed.
-
+(* ------------------------------------------------------------------ the recorded defect is real in the model *)
 (* class 3: {"": null} decodes as {} (2 bytes used), the key of {} is a proper prefix of its key,
    and a two-column key starting with it sorts on the wrong side *)
 Lemma class3_refuted_l :
